@@ -17,15 +17,16 @@ EXTENDS Naturals, Sequences, FiniteSets
 
 CONSTANTS Conns, Cfgs, Idxs
 
-VARIABLES order, pend, st, cfg, idx, ackC, ackX
-ovars == <<order, pend, st, cfg, idx, ackC, ackX>>
+VARIABLES order, pend, st, cfg, idx, ackC, ackX,
+          mustTell      \* connections that opened while an earlier one was open and have not yet been told to wait
+ovars == <<order, pend, st, cfg, idx, ackC, ackX, mustTell>>
 
 Reqs == {"cfg1", "cfg2", "up1", "up2", "search"}
 KindOf(r) == CASE r \in {"cfg1", "cfg2"} -> "config" [] r \in {"up1", "up2"} -> "upload" [] OTHER -> "result"
 NumOf(r) == IF r \in {"cfg1", "up1"} THEN 1 ELSE 2
 
 OvInit == /\ order = <<>> /\ pend = [c \in Conns |-> <<>>]
-          /\ st = 0 /\ cfg = 0 /\ idx = 0 /\ ackC = 0 /\ ackX = 0
+          /\ st = 0 /\ cfg = 0 /\ idx = 0 /\ ackC = 0 /\ ackX = 0 /\ mustTell = {}
 
 IsOpen(c) == \E i \in 1..Len(order) : order[i] = c
 Remove(s, c) == SelectSeq(s, LAMBDA x : x # c)
@@ -46,23 +47,28 @@ Disk(d) == st' = d.st /\ cfg' = d.cfg /\ idx' = d.idx
 
 (* ---- environment ---- *)
 Open(c, d) == /\ ~IsOpen(c) /\ order' = Append(order, c) /\ pend' = [pend EXCEPT ![c] = <<>>]
+              /\ mustTell' = IF order # <<>> THEN mustTell \cup {c} ELSE mustTell
               /\ DiskOK(d) /\ Disk(d) /\ UNCHANGED <<ackC, ackX>>
 Send(c, r, d) == /\ IsOpen(c) /\ pend' = [pend EXCEPT ![c] = Append(@, r)]
-                 /\ DiskOK(d) /\ Disk(d) /\ UNCHANGED <<order, ackC, ackX>>
+                 /\ DiskOK(d) /\ Disk(d) /\ UNCHANGED <<order, ackC, ackX, mustTell>>
 PeerClose(c, d) == /\ order' = Remove(order, c)
-                   /\ DiskOK(d) /\ Disk(d) /\ UNCHANGED <<pend, ackC, ackX>>
-Quiet(d) == DiskOK(d) /\ Disk(d) /\ UNCHANGED <<order, pend, ackC, ackX>>     \* Timer, Tick
+                   /\ DiskOK(d) /\ Disk(d) /\ UNCHANGED <<pend, ackC, ackX, mustTell>>
+Quiet(d) == DiskOK(d) /\ Disk(d) /\ UNCHANGED <<order, pend, ackC, ackX, mustTell>>     \* Timer, Tick
+(* the control message: "wait until the earlier connection has closed" *)
+Told(c, d) == DiskOK(d) /\ Disk(d) /\ mustTell' = mustTell \ {c} /\ UNCHANGED <<order, pend, ackC, ackX>>
 
 (* ---- server-visible ---- *)
 ServerClose(c, d) == /\ order' = Remove(order, c)
-                     /\ DiskOK(d) /\ Disk(d) /\ UNCHANGED <<pend, ackC, ackX>>
+                     /\ DiskOK(d) /\ Disk(d) /\ UNCHANGED <<pend, ackC, ackX, mustTell>>
 
 (* the init echo and control messages are not request replies: any connection may get them at once *)
 InitEcho(c, rep, d) == /\ rep \in 0..2 /\ rep <= d.st
-                       /\ DiskOK(d) /\ Disk(d) /\ UNCHANGED <<order, pend, ackC, ackX>>
+                       /\ DiskOK(d) /\ Disk(d) /\ UNCHANGED <<order, pend, ackC, ackX, mustTell>>
 
 (* Serialised: a request of c is answered only when no earlier-opened connection is still open *)
 Serialised(c) == Len(order) > 0 /\ Head(order) = c
+(* a connection that had to wait was told so before it is served *)
+ToldToWait(c) == c \notin mustTell
 Fifo(c, kind) == pend[c] # <<>> /\ KindOf(Head(pend[c])) = kind
 AckOnce(c, kind, out) ==
     out = "ok" => IF kind = "config" THEN ackC = 0 ELSE ackX = 0
@@ -74,18 +80,18 @@ ResultOK(kind, out, res, d) ==
 OutOK(kind, out) == IF kind = "result" THEN out \in {"result", "refused"} ELSE out \in {"ok", "refused"}
 
 Reply(c, kind, out, res, d) ==
-    /\ Serialised(c) /\ Fifo(c, kind) /\ OutOK(kind, out)
+    /\ Serialised(c) /\ ToldToWait(c) /\ Fifo(c, kind) /\ OutOK(kind, out)
     /\ AckOnce(c, kind, out) /\ AckMatches(c, kind, out, d) /\ ResultOK(kind, out, res, d)
     /\ DiskOK(d) /\ Disk(d)
     /\ pend' = [pend EXCEPT ![c] = Tail(@)]
     /\ ackC' = IF kind = "config" /\ out = "ok" THEN NumOf(Head(pend[c])) ELSE ackC
     /\ ackX' = IF kind = "upload" /\ out = "ok" THEN NumOf(Head(pend[c])) ELSE ackX
-    /\ UNCHANGED order
+    /\ UNCHANGED <<order, mustTell>>
 
 (* after everything is closed and the server restarted: a fresh connection *)
 ProbeOK(rep, d) == /\ rep = d.st
                    /\ (ackC # 0 => rep >= 1) /\ (ackX # 0 => rep = 2)
-Probe(rep, d) == ProbeOK(rep, d) /\ DiskOK(d) /\ Disk(d) /\ UNCHANGED <<order, pend, ackC, ackX>>
+Probe(rep, d) == ProbeOK(rep, d) /\ DiskOK(d) /\ Disk(d) /\ UNCHANGED <<order, pend, ackC, ackX, mustTell>>
 ProbeSearch(out, res, d) == /\ out = "result" /\ res = d.idx /\ d.st = 2
-                            /\ DiskOK(d) /\ Disk(d) /\ UNCHANGED <<order, pend, ackC, ackX>>
+                            /\ DiskOK(d) /\ Disk(d) /\ UNCHANGED <<order, pend, ackC, ackX, mustTell>>
 =============================================================================
